@@ -22,6 +22,7 @@ type Probe struct {
 	Panic  any
 }
 
+//go:norace
 func (h *H) probe(when, what string, hd *Handle, f func() error) {
 	pr := Probe{When: when, What: what, Handle: hd.ID}
 	func() {
@@ -41,6 +42,8 @@ func (h *H) probe(when, what string, hd *Handle, f func() error) {
 var probeType = reflect.TypeOf((*T9)(nil)) // reserved: never registered by the generator
 
 // cancelledChain: was the creation context of hd or of an ancestor cancelled?
+//
+//go:norace
 func (h *H) cancelledChain(hd *Handle) bool {
 	for x := hd; x != nil; {
 		if x.CancelSeq > 0 {
@@ -57,6 +60,8 @@ func (h *H) cancelledChain(hd *Handle) bool {
 // doFinish is the body of the finisher's operation, run after every client
 // has finished: settle, probe cancelled scopes, close the provider, settle,
 // probe everything.
+//
+//go:norace
 func (h *H) doFinish(t *simrt.Task, res *OpResult) {
 	simrt.Settle(siteWait)
 	n := int(h.nHandles.Load())
